@@ -280,6 +280,8 @@ class Namer:
         if same and x < self.p_share + self.p_collide + self.p_cross:
             base = rng.choice(same)[0]          # names that meet the generator's derived keys (same arity)
             name = rng.choice([f"init_{base}", f"r0_stoich_{base}", f"r1_stoich_{base}"])
+            while any(r[0] == name and r[2] == arity for r in self.reg) and rng.random() < 0.7:
+                name += "_"                     # ... and the names the generator would move on to
             if any(r[0] == name and r[2] != arity for r in self.reg) or len(name) > 40:
                 name = f"f{self.n}"
                 self.n += 1
@@ -409,6 +411,12 @@ CORPUS = [
     {"content": {"vars": [["x", {"v": "1"}]], "pars": [["k", {"v": "3"}], ["q", {"ia": {"args": ["k", "x"], "e": _F["add"], "name": "f"}}]],
                  "derived": [["d1", {"args": ["x", "q"], "e": _F["mul"], "name": "init_f"}]],
                  "rxns": [["r", {"args": ["d1", "k"], "e": _F["sub"], "name": "g", "st": [["x", {"c": "-1"}]]}]]}},
+    # ... and the next name the generator moves on to is taken as well (init_f_): the key must become init_f__
+    {"content": {"vars": [["x", {"v": "1"}]], "pars": [["k", {"v": "3"}], ["q", {"ia": {"args": ["k", "x"], "e": _F["add"], "name": "f"}}]],
+                 "derived": [["d1", {"args": ["x", "q"], "e": _F["mul"], "name": "init_f"}], ["d2", {"args": ["d1", "q"], "e": _F["sub"], "name": "init_f_"}]],
+                 "rxns": [["r", {"args": ["d2", "k"], "e": _F["sub"], "name": "g",
+                                 "st": [["x", {"args": ["q", "k"], "e": _F["mul"], "name": "h"}]]}],
+                          ["r_stoich_h", {"args": ["x"], "e": ["a", 0], "name": "r_stoich_h", "st": [["x", {"c": "-1"}]]}]]}},
 ]
 
 
